@@ -539,14 +539,18 @@ class Register(wiring.Component):
         m = Module()
 
         field_start = 0
+        submodule_names = set()
 
         for field_path, field in self:
             field_width = Shape.cast(field.port.shape).width
             field_slice = slice(field_start, field_start + field_width)
 
-            if field_path:
-                m.submodules["__".join(str(key) for key in field_path)] = field
-            else: # avoid empty name for a single un-named field
+            # Distinct field paths may be joined to the same string (e.g. ("a", "b") and ("a__b",)).
+            submodule_name = "__".join(str(key) for key in field_path)
+            if field_path and submodule_name not in submodule_names:
+                submodule_names.add(submodule_name)
+                m.submodules[submodule_name] = field
+            else: # avoid empty name for a single un-named field, or a duplicate name
                 m.submodules += field
 
             if field.port.access.readable():
